@@ -130,7 +130,7 @@ def run(ctx):
                 cases.append(f'Bin{"En" if lang == "en" else "Ja"} {gcat(x)} {gcat(y)} {G.gseen(seen_small)} '
                              f'{G.gresult(G.call(mod.apply_binary_rules, x, y, None if seen_small is None else set(seen_small)))}')
                 descr.append(('bin', lang, str(x), str(y)))
-                if len(seed_pairs) < (150 if ctx.quick else 1500):
+                if sum(1 for p_ in seed_pairs if p_[0] == lang) < (75 if ctx.quick else 750):      # both languages
                     seed_pairs.append([lang, str(x), str(y)])
         ctx.stats[f'fired:{lang}'] = fired
         # unary rules: exactly the configured targets, in order; nothing for others
@@ -144,6 +144,16 @@ def run(ctx):
             cases.append(f'Un{"En" if lang == "en" else "Ja"} {gcat(k)} {G.gtable(table)} {G.gresult(out)}')
             descr.append(('un', lang, str(k)))
             ctx.case(('un', lang, str(k)))
+        # any unary table, not only the shipped one: several targets per key come back all, in the configured order
+        all_targets = [t_ for ts_ in table.values() for t_ in ts_]
+        for k in list(table)[:10]:
+            multi = list(table[k]) + rng.sample(all_targets, min(len(all_targets), rng.randint(1, 3)))
+            t2 = {k: multi}
+            out = G.call(mod.apply_unary_rules, k, t2)
+            ctx.case(('un-multi', lang, str(k), len(multi)), nontrivial=True)
+            if out[0] != 'ok' or [r.cat for r in out[1]] != multi:
+                ctx.fail('unary_not_exact', f'{lang}: apply_unary_rules({k}) with {len(multi)} configured targets returns {[str(r.cat) for r in out[1]] if out[0] == "ok" else out}: '
+                         f'not exactly the configured targets {[str(c) for c in multi]} in order', {'lang': lang, 'x': str(k), 'targets': [str(c) for c in multi]})
         # the loader (depccg/allennlp/utils.py read_params) builds the unary table as a defaultdict(list): looking a category up must not
         # change the caller's table either
         from collections import defaultdict
@@ -246,6 +256,22 @@ def run(ctx):
         except Exception as e:      # noqa
             return 'ERR:' + type(e).__name__
     fresh = json.loads(base or '[]')
+    # object churn: the same pairs again and again on freshly parsed, short-lived category objects - an answer is a function of the category
+    # VALUES, not of which objects (addresses) were seen before
+    churn_n = 0
+    for rep in range(4 if ctx.quick else 12):
+        for k, (lang, x, y) in enumerate(seed_pairs):
+            if k < len(fresh):
+                churn_n += 1
+                h_ = here(lang, x, y)
+                if h_ != fresh[k]:
+                    ctx.fail('history_dependence', f'{lang}: rules applied to ({x}, {y or "-"}) on freshly built objects return {h_} after {churn_n} earlier calls in this process '
+                             f'but {fresh[k]} in a fresh interpreter', {'lang': lang, 'x': x, 'y': y})
+                    break
+        else:
+            continue
+        break
+    ctx.stats['churn_calls'] = churn_n
     for k, (lang, x, y) in enumerate(seed_pairs):
         if k < len(fresh) and here(lang, x, y) != fresh[k]:
             ctx.fail('history_dependence', f'{lang}: apply_binary_rules({x}, {y}) returns {here(lang, x, y)} in this process (after other calls) but {fresh[k]} in a fresh interpreter',
